@@ -16,6 +16,7 @@ case "$prop" in
   C08) eng=wire ;;
   C09) eng=pow ;;
   C10|C12) eng=mempool ;;
+  C11) eng=secp ;;
   C13) eng=accounting ;;
   C14) eng=versionbits ;;
   C15) eng=records ;;
